@@ -194,7 +194,13 @@ struct cache2
 template<class S>
 struct cache2<S, std::void_t<decltype(std::declval<S&>().internal_func_ptr_map)>>
 {
-  static size_t size(S& s) { return s.internal_func_ptr_map.size(); }
+  static size_t size(S& s)
+  {
+    // content hash: names and cached addresses
+    size_t h = s.internal_func_ptr_map.size();
+    for (auto& e : s.internal_func_ptr_map) h = h * 1000003u + std::hash<std::string>{}(e.first) * 31u + reinterpret_cast<uintptr_t>(e.second);
+    return h;
+  }
 };
 static size_t cache2_size(sbx_t& s) { return cache2<sbx_t>::size(s); }
 static std::string key(World& w)
@@ -203,7 +209,7 @@ static std::string key(World& w)
   for (int i = 0; i < 3; i++) {
     k += std::to_string(w.live[i]) + std::to_string(w.lib[i]) + (w.addr[i] ? "a" : "-");
     // the symbol cache(s), by content: which names are cached (merging states that differ here hid the order "invoke, then take the address")
-    for (auto& e : w.s[i].func_ptr_map) k += "," + e.first;
+    for (auto& e : w.s[i].func_ptr_map) k += "," + e.first + "=" + std::to_string(reinterpret_cast<uintptr_t>(e.second));
     k += "/" + std::to_string(cache2_size(w.s[i]));
     k += ";";
   }
